@@ -146,6 +146,10 @@ GridGlobal::GridGlobal(AccelerationContext const *acc, GridGlobal const *global,
 }
 
 void GridGlobal::setTensors(MultiIndexSet &&tset, int cnum_outputs, TypeOneDRule crule, double calpha, double cbeta){
+    // build the one dimensional cache first, it throws if a custom table has too few levels and the grid must remain unchanged
+    std::vector<int> new_max_levels = MultiIndexManipulations::getMaxIndexes(tset);
+    OneDimensionalWrapper new_wrapper(custom, *std::max_element(new_max_levels.begin(), new_max_levels.end()), crule, calpha, cbeta);
+
     clearGpuNodes();
     clearGpuValues();
     tensor_refs = std::vector<std::vector<int>>();
@@ -162,9 +166,9 @@ void GridGlobal::setTensors(MultiIndexSet &&tset, int cnum_outputs, TypeOneDRule
     rule = crule;
     alpha = calpha;  beta = cbeta;
 
-    max_levels = MultiIndexManipulations::getMaxIndexes(tensors);
+    max_levels = std::move(new_max_levels);
 
-    wrapper = OneDimensionalWrapper(custom, *std::max_element(max_levels.begin(), max_levels.end()), rule, alpha, beta);
+    wrapper = std::move(new_wrapper);
 
     MultiIndexManipulations::computeActiveTensorsWeights(tensors, active_tensors, active_w);
 
